@@ -320,7 +320,7 @@ def judge_guards(ctx, seq_lines, conc_lines):
             hist = []
         hist.append(x)
     ev = json.loads(hist[-1])
-    ev["lv"][0] = (ev["lv"][0] + 1) % 7
+    ev["lv"][0] = 9        # not a level at all: cannot be explained by any history
     p = os.path.join(ctx.workdir, "guard_seq.ndjson")
     with open(p, "w") as f:
         f.write("\n".join(hist[:-1] + [json.dumps(ev, separators=(",", ":"))]) + "\n")
@@ -334,7 +334,7 @@ def judge_guards(ctx, seq_lines, conc_lines):
     if idx:
         i = idx[len(idx) // 2]
         e = json.loads(run[i])
-        e["r"] = (e["r"] + 1) % 7
+        e["r"] = 9         # not a level at all: no linearisation can explain it
         p = os.path.join(ctx.workdir, "guard_conc.ndjson")
         with open(p, "w") as f:
             f.write("\n".join(run[:i] + [json.dumps(e, separators=(",", ":"))] + run[i + 1:]) + "\n")
@@ -394,8 +394,9 @@ def run(ctx):
     scripts = [s for s in scripts if len(s) > 1]
     if len(scripts) < 10000:
         raise vlib.Infra("script emission produced only %d scripts" % len(scripts))
-    if not thorough:
-        scripts = scripts[ctx.seed % 10::10]
+    # every 10th (quick) / every 2nd (thorough) script, rotated by the seed
+    step = 2 if thorough else 10
+    scripts = scripts[ctx.seed % step::step]
     spath = os.path.join(ctx.workdir, "scripts.ndjson")
     vlib.write_ndjson(spath, scripts)
 
@@ -427,7 +428,7 @@ def run(ctx):
     phase("record+judge-sequential")
     # 5. threaded driver: linearisation (ASan build) and ThreadSanitizer
     seeds = [ctx.seed * 100 + i for i in range(4 if thorough else 1)]
-    runs, windows = (125, 20) if thorough else (20, 10)
+    runs, windows = (125, 20) if thorough else (50, 20)
     conc_first = None
     for sd in seeds:
         path, rc, info = run_threaded(ctx, asan_bin, "asan", sd, runs, windows, 6, "s%d" % sd)
@@ -442,8 +443,9 @@ def run(ctx):
     tsan_windows = 0
     for sd in seeds:
         for mc in (30, 6):
-            path, rc, info = run_threaded(ctx, tsan_bin, "tsan", sd, runs, windows, mc, "s%d_%d" % (sd, mc))
-            tsan_windows += runs * windows
+            truns = max(10, runs // 2)
+            path, rc, info = run_threaded(ctx, tsan_bin, "tsan", sd, truns, windows, mc, "s%d_%d" % (sd, mc))
+            tsan_windows += truns * windows
     ctx.extra["tsan_windows_run"] = tsan_windows
     ctx.extra["tsan_note"] = "absence of data races is observed by ThreadSanitizer on these schedules, not decided by the TLA+ specification"
 
